@@ -3,4 +3,4 @@
 # For every stored seeded change: does the patch apply to the current tree and does the check of the property it breaks report it?
 J=${1:-6}
 cd /verif
-ls -d seeded/*/ | xargs -P $J -I{} bash -c 'd={}; id=$(basename $d); P=${id%%-*}; slot=$((40 + $(echo $id | cksum | cut -d" " -f1) % '$J')); out=$(flock /tmp/seedslot-$slot.lock python3 engine/scratch_verdict.py $d/patch.diff $P --slot $slot 2>&1); n=$(echo "$out" | grep -c " NEW "); if echo "$out" | grep -q "DOES NOT APPLY"; then echo "$id: PATCH NO LONGER APPLIES"; elif [ $n -gt 0 ]; then echo "$id: CAUGHT $(echo "$out" | grep " NEW " | head -1 | cut -d" " -f3 | cut -c1-110)"; else echo "$id: MISSED"; fi' | sort
+ls -d seeded/*/ | xargs -P $J -I{} bash -c 'd={}; id=$(basename $d); P=${id%%-*}; slot=$((40 + $(echo $id | cksum | cut -d" " -f1) % '$J')); out=$(flock /tmp/seedslot-$slot.lock python3 engine/scratch_verdict.py $d/patch.diff $P --slot $slot 2>&1); n=$(echo "$out" | grep -c " NEW "); if echo "$out" | grep -q "DOES NOT APPLY"; then echo "$id: PATCH NO LONGER APPLIES"; elif echo "$out" | grep -q "DOES NOT COMPILE"; then echo "$id: PATCH NO LONGER COMPILES"; elif [ $n -gt 0 ]; then echo "$id: CAUGHT $(echo "$out" | grep " NEW " | head -1 | cut -d" " -f3 | cut -c1-110)"; else echo "$id: MISSED"; fi' | sort
